@@ -23,7 +23,7 @@ def char_alpha(sd=0):
     N = gram.Names(sd)
     texts = ['\r', '\t', '~', '&', '#', '^', '_', 'é', ' ', ' ', N.a + '\r' + N.a, '\t' + N.a]
     cont = {'cmd{}', 'cmd[]', 'group', 'env', 'env{}', 'item', 'item[]', 'm$', 'm[', 'meq'}
-    return gram.Alphabet('A_char', N, texts, cont, star=False, eof_comment=False)
+    return gram.Alphabet('A_char', N, texts, cont, star=False, eof_comment=False, cr_comment=True)
 
 
 def search_alpha(sd=0):
